@@ -26,6 +26,11 @@ def programs(tier, rnd: random.Random):
               "{ RdV = (0 ? mem_load_u16(RsV) + 1 : RtV); }", "{ RdV = (1 ? RsV : PtN + 1); }", "{ RdV = (1 ? RsV : ({ P0 = 1; RtV; })); }", "{ RdV = (0 ? ({ P1 = RsV; 2; }) + 1 : RtV); }",
               "{ RsV + mem_load_u8(RtV); RdV = 1; }", "{ RdV = RsV; (int32_t) mem_load_s16(RtV); }",
               "{ for (i = 0; i < 2; i++) { RxV += RsV; } RdV = RsV; }", "{ RdV = RsV; RdV = RsV; RdV = RsV; }", "{ ; ; {} }", "{ RdV = 4 / 2; }", "{ RdV = (4 / 2) ? RsV : RtV; }"]
+    # void calls as statements (at top level, after other statements, in a branch) whose arguments are COMPUTED (operands that exist only as
+    # arguments of the call): every operand of the call must be declared in both layouts
+    for call in ("trap(0, RsV + 1);", "trap(RsV & 3, RtV * 2);", "set_usr_field(bundle, HEX_REG_FIELD_USR_OVF, RsV + RtV);",
+                 "set_usr_field(bundle, HEX_REG_FIELD_USR_LPCFG, (RsV > RtV));", "fcirc_add(bundle, RxV, siV + 1, MuV, get_corresponding_CS(pkt, MuV));"):
+        progs += ["{ %s }" % call, "{ RdV = RsV; %s }" % call, "{ if (RuV) { %s } }" % call, "{ %s ReV = RtV + 1; }" % call]
     # every register alias in every access form: read, .new read, both in one statement, written, written and read back (each form has its own
     # declaration / operand-handle text in the emitted body)
     aliases = ["USR", "PC", "SP", "LR", "GP", "FP", "LC0", "LC1", "SA0", "SA1", "P3_0", "M0", "M1", "CS0", "CS1", "UPCYCLE", "PKTCOUNT", "UTIMER", "UGP",
